@@ -30,6 +30,8 @@ type c09Opts struct {
 	nstreams  int
 	server    func(p *ePair, st *Stream) // script for each stream the server accepts (sync mode)
 	onData    func(st *Stream, r BufferReader)
+	preopen   bool                       // the (single) stream exists on both ends before the workload starts (and before the peer stalls)
+	serverAny func(p *ePair, st *Stream) // with preopen: runs on the server's end at any moment of the client's script (lazy thread)
 }
 
 func c09Body(o c09Opts) func() {
@@ -49,6 +51,27 @@ func c09Body(o c09Opts) func() {
 			po.ListenCB = lcb
 		}
 		p := newEPair(po)
+		var pre, preS *Stream
+		if o.preopen {
+			vrt.Quiet(true)
+			tc := vrt.GoProc("open-c", 1, func() {
+				pre, _ = p.c.OpenStream()
+				pre.BufferWriter().WriteBytes([]byte{0x55})
+				pre.Flush(false)
+			})
+			ts := vrt.GoProc("open-s", 2, func() {
+				preS, _ = p.s.AcceptStream()
+				preS.BufferReader().ReadBytes(1)
+				preS.BufferReader().ReleasePreviousRead()
+			})
+			vrt.WaitThreads(tc, ts)
+			vrt.WaitIdle(0)
+			vrt.Quiet(false)
+			if pre == nil || preS == nil {
+				vrt.Failf("harness", "could not establish the stream")
+			}
+			srvStreams = append(srvStreams, preS)
+		}
 		if o.stallPeer {
 			p.router.paused[2] = true
 		}
@@ -61,13 +84,20 @@ func c09Body(o c09Opts) func() {
 		for k := 0; k < n; k++ {
 			k := k
 			ths = append(ths, vrt.GoProc(fmt.Sprintf("client%d", k), 1, func() {
-				st, err := p.c.OpenStream()
-				if err != nil {
-					vrt.Failf("harness", "open: %v", err)
+				st := pre
+				if st == nil {
+					var err error
+					st, err = p.c.OpenStream()
+					if err != nil {
+						vrt.Failf("harness", "open: %v", err)
+					}
 				}
 				cliStreams = append(cliStreams, st)
 				o.client(p, k, st)
 			}))
+		}
+		if o.preopen && o.serverAny != nil {
+			ths = append(ths, vrt.GoLazy("server-any-moment", 2, func() { o.serverAny(p, preS) }))
 		}
 		if !o.callback && o.server != nil {
 			for k := 0; k < n; k++ {
@@ -188,6 +218,27 @@ func TestVerif_C09(t *testing.T) {
 				}
 				vrt.Count("gave_up_queue_full")
 			}}, 1, 2),
+		mk(c09Opts{name: "queue-full-flush-vs-peer-close", queueCap: 1, stallPeer: true, preopen: true,
+			client: func(p *ePair, k int, st *Stream) {
+				c09Flush(st, 1, 0, 5)
+				if err := c09Flush(st, 1, 5, 40); err == nil { // waits in the queue-full retry loop; the peer's close may end the wait
+					vrt.Failf("harness", "second flush into the stalled 1-element queue succeeded")
+				} else {
+					vrt.Count("flush2:" + err.Error())
+				}
+			},
+			serverAny: func(p *ePair, st *Stream) { st.Close() }}, 1, 2),
+		mk(c09Opts{name: "queue-full-flush-vs-local-session-traffic", queueCap: 1, stallPeer: true, preopen: true,
+			client: func(p *ePair, k int, st *Stream) {
+				c09Flush(st, 1, 0, 5)
+				st.SetWriteDeadline(vrt.Now().Add(35 * ms))
+				if err := c09Flush(st, 1, 5, 40); err == nil {
+					vrt.Failf("harness", "second flush into the stalled 1-element queue succeeded")
+				} else {
+					vrt.Count("flush2:" + err.Error())
+				}
+			},
+			serverAny: func(p *ePair, st *Stream) { c09Flush(st, 9, 0, 5) }}, 1, 2),
 		mk(c09Opts{name: "reuse-read-buffer-respond",
 			client: func(p *ePair, k int, st *Stream) {
 				c09Flush(st, 1, 0, 10)
